@@ -69,6 +69,8 @@ func runL1Stream(cfg L1StreamCfg, seed uint64, tier string, outdir string) *Repo
 	return rep
 }
 
+func init() { register("C11", genC11) }
+
 func genC11(seed uint64, tier, outdir string) *Report {
 	w := DefaultL1Weights
 	w.Propose, w.Delete, w.Claim, w.Deposit = 40, 16, 6, 8
